@@ -191,7 +191,12 @@ class EventletWorker(AsyncWorker):
                 for a in acceptors:
                     a.kill(eventlet.StopServe())
                 for a in acceptors:
-                    a.wait()
+                    # keep notifying the arbiter while the requests in
+                    # progress finish: 'timeout' must not cut them short
+                    while not a.dead:
+                        self.notify()
+                        with eventlet.Timeout(1.0, False):
+                            a.wait()
         except eventlet.Timeout as te:
             if te != t:
                 raise
